@@ -590,9 +590,18 @@ pub fn gen_val(rng: &mut Rng, c: &ColDef, k: i64, img: i64) -> Val {
                 // longer values with many distinct trigrams (n-gram index pages span several batches)
                 let a = WORDS[rng.usize(WORDS.len())];
                 let b = WORDS[rng.usize(WORDS.len())];
-                let x = (b'a' + rng.below(26) as u8) as char;
-                let y = (b'a' + rng.below(26) as u8) as char;
-                Val::S(format!("{}{}{}{}{}", a, x, y, b, rng.below(4)))
+                let mut x = (b'a' + rng.below(26) as u8) as char;
+                let mut y = (b'a' + rng.below(26) as u8) as char;
+                // sometimes the two halves are joined by characters that yield no alphanumeric trigram
+                // (blank, punctuation, accented and CJK text): needles cut across the joint have few or no
+                // index tokens, and accented letters are folded to ASCII by the index's analyzer
+                let joint = ["", "", "", " ", "-", ", ", "\u{e9}", " \u{e9} ", "\u{65e5}\u{672c}", "_ "][rng.usize(10)];
+                if !joint.is_empty() {
+                    // few distinct neighbours of the joint, so that a needle cut across it matches stored rows
+                    x = (b'a' + (x as u8 - b'a') % 3) as char;
+                    y = (b'a' + (y as u8 - b'a') % 3) as char;
+                }
+                Val::S(format!("{}{}{}{}{}{}", a, x, joint, y, b, rng.below(4)))
             } else {
                 Val::S(format!("{}{}", WORDS[rng.usize(WORDS.len())], rng.below(4)))
             }
@@ -680,6 +689,13 @@ pub fn gen_pred(rng: &mut Rng, cols: &[ColDef], kmax: i64, depth: u32) -> Pred {
             };
             let n = (rng.range(3, 5) as usize).min(src.len());
             let start = rng.usize(src.len() - n + 1);
+            // half of the needles taken from a value with a non-alphanumeric joint are cut across it
+            // (3 characters around the joint: no alphanumeric trigram at all)
+            if let Some(j) = src.iter().position(|ch| !ch.is_ascii_alphanumeric()) {
+                if j >= 1 && j + 2 <= src.len() && rng.chance(0.5) {
+                    return Pred::Contains(name, src[j - 1..j + 2].iter().collect());
+                }
+            }
             Pred::Contains(name, src[start..start + n].iter().collect())
         }
         _ => match rng.below(8) {
@@ -840,4 +856,34 @@ impl TableState {
         self.rows = out;
         Ok((inserted, updated, deleted))
     }
+}
+
+/// True when the SQL text holds a `contains(col, 'needle')` whose needle is at least 3 bytes long and has no
+/// three consecutive characters that the n-gram index's analyzer (lower-case, ASCII folding, alphanumeric
+/// trigrams) turns into a token. Latin letters with diacritics count as alphanumeric (they are folded).
+pub fn has_trigramless_needle(sql: &str) -> bool {
+    let mut rest = sql;
+    while let Some(i) = rest.find("contains(") {
+        rest = &rest[i + 9..];
+        let Some(q) = rest.find(", '") else { continue };
+        let body = &rest[q + 3..];
+        let Some(e) = body.find("')") else { continue };
+        let needle = &body[..e];
+        if needle.len() >= 3 {
+            let mut run = 0;
+            let mut best = 0;
+            for ch in needle.chars() {
+                if ch.is_ascii_alphanumeric() || ('\u{c0}'..='\u{24f}').contains(&ch) {
+                    run += 1;
+                    best = best.max(run);
+                } else {
+                    run = 0;
+                }
+            }
+            if best < 3 {
+                return true;
+            }
+        }
+    }
+    false
 }
